@@ -9,6 +9,7 @@ import (
 	"strings"
 	"time"
 
+	"verif.local/lab/dslprint"
 	"verif.local/lab/gen"
 	"verif.local/lab/pipeline"
 	"verif.local/lab/spec"
@@ -51,6 +52,18 @@ func main() {
 		runRuntime(checkC14())
 	case "C20":
 		checkC20()
+	case "dsl":
+		// debugging aid: lab dsl <index> [profile] prints the DSL of the C01 spec with that index at VERIF_SEED
+		run := vc.New("sample")
+		idx := 0
+		fmt.Sscanf(os.Args[1], "%d", &idx)
+		prof := c01Profiles[idx%len(c01Profiles)]
+		if len(os.Args) > 2 {
+			prof = os.Args[2]
+		}
+		s := gen.Generate(run.Rand(1, uint64(idx)), fmt.Sprintf("%d", idx), gen.Opts{Profile: prof, Thorough: os.Getenv("VERIF_TIER") == "thorough"})
+		fmt.Println(dslprint.Func(s, "D"))
+		return
 	case "gen-sample":
 		// debugging aid: print the DSL of a few specs
 		run := vc.New("sample")
@@ -64,7 +77,7 @@ func main() {
 	}
 }
 
-var c01Profiles = []string{"naming", "naming", "mixed", "http-loc", "validation", "errors", "security", "views", "openapi", "mixed"}
+var c01Profiles = []string{"naming", "naming", "mixed", "http-loc", "validation", "errors", "security", "views", "openapi", "mixed", "views", "naming"}
 
 type c01Witness struct {
 	Spec   *spec.Spec `json:"spec"`
@@ -220,7 +233,7 @@ func checkC01() {
 		judgeC01(run, d, rejects)
 		run.Finish()
 	}
-	total := run.N(48, 1500)
+	total := run.N(128, 1500)
 	per := 64
 	idx := 0
 	for bi := 0; idx < total; bi++ {
